@@ -80,7 +80,8 @@ def strat(draw, tier):
         dtypes.append(t)
     info2 = dict(info)
     info2['real'] = list(info['real']) + placeholders * 2
-    g = gen.TreeGen(draw, info2, max_betas=3, max_nodes=20, logit=info.get('choice') is not None, sharing=False)
+    g = gen.TreeGen(draw, info2, max_betas=3, max_nodes=20, logit=info.get('choice') is not None, sharing=False,
+                    differentiable=True)
     g.not_in_linutil = set(placeholders)
     form = draw(st.sampled_from(['exp', 'logit_prob', 'pos']))
     if form == 'exp' or (form == 'logit_prob' and info.get('choice') is None):
@@ -102,12 +103,13 @@ def strat(draw, tier):
             root = ['log', root]
     else:
         root = ['log', traj] if draw(st.booleans()) else traj
+    edit_drop = draw(st.one_of(st.none(), st.none(), st.lists(st.integers(0, 40), min_size=1, max_size=3)))
     perm_blocks = list(draw(st.permutations(list(range(n_ind)))))
     within_seed = draw(st.integers(0, 10**6))
     return dict(table=table, id_name=id_name, sizes=sizes, roots=[root], shared=[], betas={}, overloads=draw(st.booleans()),
                 draws=[[dnames[i], dtypes[i]] for i in range(n_draw_vars)], user_types=user_types,
                 R=draw(st.integers(1, 5)) * 2, interleaved=interleave, perm_blocks=perm_blocks, within_seed=within_seed,
-                np_seed=0)
+                np_seed=0, edit_drop=None if n_draw_vars else edit_drop)
 
 
 def _permuted_table(case):
@@ -146,6 +148,17 @@ def _evaluate(case, table):
     res['values'] = np.asarray(e.get_value_c(database=database, number_of_draws=case['R'], prepare_ids=True),
                                dtype=float).tolist()
     res['data_after'] = {c: np.asarray(database.data[c], dtype=float).tolist() for c in database.data.columns}
+    if case.get('edit_drop') and len(database.data) >= 2:
+        # the public table is edited with pandas after panel(): the map must follow at the next evaluation
+        n_rows = len(database.data)
+        drop = sorted({i % n_rows for i in case['edit_drop']})[: n_rows - 1]
+        database.data = database.data.drop(index=database.data.index[drop])
+        e_b = build.Builder([], overloads=case['overloads']).build(case['roots'][0])
+        res['edit'] = dict(values=np.asarray(e_b.get_value_c(database=database, number_of_draws=case['R'], prepare_ids=True),
+                                             dtype=float).tolist(),
+                           data={c: np.asarray(database.data[c], dtype=float).tolist() for c in database.data.columns},
+                           map_index=[float(i) for i in database.individualMap.index])
+        return res
     e2 = build.Builder([], overloads=case['overloads']).build(case['roots'][0])
     params = Parameters()
     params.set_value(name='number_of_draws', value=case['R'])
@@ -157,6 +170,9 @@ def _evaluate(case, table):
     x = [the.id_manager.free_betas.expressions[n].initValue for n in the.free_beta_names]
     res['like'] = float(the.calculate_likelihood(x, scaled=False))
     res['like_scaled'] = float(the.calculate_likelihood(x, scaled=True))
+    if x:
+        res['like_scaled_with_derivatives'] = float(
+            the.calculate_likelihood_and_derivatives(x, scaled=True, hessian=False, bhhh=False).function)
     sim = the.simulate(dict(zip(the.free_beta_names, x)))
     res['sim'] = np.asarray(sim['log_like'], dtype=float).tolist()
     res['sim_index'] = [float(i) for i in sim.index]
@@ -279,10 +295,30 @@ def judge(case) -> Outcome:
                          f'{refsem.render(case["roots"][0])[:250]}; ids {ids}')
                 return out
         values_by_id[tag] = dict(zip(r['map_index'], vals))
+        if 'edit' in r:
+            ed = r['edit']
+            try:
+                ref_e = _reference(case, ed['data'], None)
+            except (refsem.IllPosed, OverflowError):
+                ref_e = None
+            if ref_e is not None:
+                if len(ed['values']) != len(ref_e) or sorted(ed['map_index']) != sorted(ref_e):
+                    out.fail('edit_after_panel:individuals', f'after rows were dropped with pandas the trajectory has {len(ed["values"])} '
+                                                             f'values for individuals {ed["map_index"]}; the table holds {sorted(ref_e)} ({tag})')
+                else:
+                    for ident, v in zip(ed['map_index'], ed['values']):
+                        if not abs(v - ref_e[ident].v) <= tol(ref_e[ident]) + 1e-12:
+                            out.fail('edit_after_panel:value', f'after rows were dropped with pandas individual {ident} gets {v!r}, '
+                                                               f'the product over its remaining rows is {ref_e[ident].v!r} ({tag})')
+                            break
+            continue
         total = sum(ref[i].v for i in ref)
         ttol = sum(tol(ref[i]) for i in ref) + 1e-10 * (1 + sum(abs(ref[i].v) for i in ref))
         if not abs(r['like'] - total) <= ttol:
             out.fail('likelihood:sum_over_individuals', f'calculate_likelihood {r["like"]!r} vs sum over individuals {total!r} ({tag})')
+        if 'like_scaled_with_derivatives' in r and not abs(r['like_scaled_with_derivatives'] - r['like'] / len(distinct)) <= ttol:
+            out.fail('likelihood:scaled_with_derivatives', f'calculate_likelihood_and_derivatives(scaled=True) gives '
+                     f'{r["like_scaled_with_derivatives"]!r}; log likelihood {r["like"]!r} over {len(distinct)} individuals ({tag})')
         if not abs(r['like_scaled'] - r['like'] / len(distinct)) <= ttol:
             out.fail('likelihood:scaled_by_individuals', f'scaled likelihood {r["like_scaled"]!r} vs {r["like"]!r} / {len(distinct)} individuals ({tag})')
         if len(r['sim']) != len(distinct):
